@@ -5,7 +5,8 @@ cd "$(dirname "$0")/.." || exit 2
 out=${SEED_OUT:-build/seeded.tsv}
 mkdir -p build
 git -C /repo diff --quiet || { echo "/repo has local modifications, refusing"; exit 2; }
-trap 'git -C /repo checkout -- . 2>/dev/null' EXIT
+restore() { git -C /repo checkout -- . 2>/dev/null; git -C /repo clean -fdq -- src include examples 2>/dev/null; }
+trap restore EXIT
 ids="$*"; [ -z "$ids" ] && ids=$(ls seeded)
 for id in $ids; do
   prop=$(python3 -c "import json;print(json.load(open('seeded/$id/meta.json'))['property'])")
@@ -15,5 +16,5 @@ for id in $ids; do
   sig=$(grep -m1 '^violation: signature=' "$log" | sed 's/^violation: signature=\([^ ]*\).*/\1/')
   [ -z "$sig" ] && sig=$(grep -m1 'HARNESS\|BUILD-FAILED' "$log" | cut -c1-80)
   echo -e "$id\t$prop\texit=$rc\t$(( $(date +%s) - t0 ))s\t$sig" | tee -a "$out"
-  git -C /repo checkout -- .
+  restore
 done
